@@ -67,6 +67,8 @@ public:
 
   HashMap& operator=(const HashMap& other)
   {
+    if(this == &other)
+      return *this;
     clear();
     for(const Item* i = other._begin.item, * end = &other.endItem; i != end; i = i->next)
       append(i->key, i->value);
